@@ -193,6 +193,22 @@ def record_scheduler(template, schedule, checks, sizes, cap=64):
                 raise MachineryError("scheduler result does not descend from the input schedule")
             steps.reverse()
             results.append((res, steps))
+        # the public entry point (what the dart-scheduler pass calls): default selection and selection by index, with the same constraints
+        if len(results) < cap:
+            for idx in (None, 0, 1, 2):
+                try:
+                    res = sch.scheduler(template, schedule, extra_checks=extra, schedule_idx=idx)
+                except (StopIteration, IndexError):
+                    continue
+                steps = []
+                cur = res
+                while getattr(cur, "_verif_parent", None) is not None:
+                    steps.append((cur._verif_step, cur))
+                    cur = cur._verif_parent
+                if cur is not schedule:
+                    raise MachineryError("scheduler() result does not descend from the input schedule")
+                steps.reverse()
+                results.append((res, steps))
         return results
     finally:
         Schedule.rotate, Schedule.tile_dim = orig_rotate, orig_tile
